@@ -75,7 +75,7 @@ def canary(ctx, hist, spec, handlers):
     return True
 
 
-def mc_and_replay(ctx, name, c, spec=SPEC, handlers=None, leaf=is_leaf, sample_every=200, workers=8):
+def mc_and_replay(ctx, name, c, spec=SPEC, handlers=None, leaf=is_leaf, sample_every=200, workers=6):
     handlers = handlers or hm.BASE_HANDLERS
     # recursive sums over a few hundred tensor entries: give the TLC worker threads a deeper stack
     res, dump, d = tlc.mc(spec, c, dump=True, workers=workers, env={'JAVA_TOOL_OPTIONS': '-Xss64m'})
